@@ -418,7 +418,7 @@ class Engine:
         # the kind of callable handed over as solve= varies with the scenario: a plain function, a
         # functools.partial with a bound keyword (the parameters after it become keyword-only), or a
         # bound method whose ext0 / solver are keyword-only
-        kind = ("function", "partial", "method")[pick(self.doc.get("seed", 0), "solve-kind", 3)]
+        kind = ("function", "partial", "method", "own-solver")[pick(self.doc.get("seed", 0), "solve-kind", 4)]
         if kind == "partial":
             import functools
 
@@ -433,6 +433,13 @@ class Engine:
                     return eng._solve(A, b, x, dof1, dof0, offsets=offsets, ext0=ext0, solver=solver)
 
             solve = _Solver().solve
+        elif kind == "own-solver":
+            # a callable that brings its own linear solver: no `solver` (and no `offsets`) parameter -
+            # Newton hands over only the names it finds in the signature of *this* callable
+            def solve_own(A, b, x, dof1, dof0, ext0=None):
+                return eng._solve(A, b, x, dof1, dof0, ext0=ext0, solver=eng.solver)
+
+            solve = solve_own
         self._solve_fn = solve
         self._check_fn = check
         self._saved = (_step_mod.newtonrhapson, _newton_mod.perf_counter)
